@@ -153,6 +153,95 @@ Definition c07_shared_ok (c : c07_case) : bool :=
   negb (wf evs) && statuses_match outs cl 0 obs && pubrels_match evs outs
   && Bool.eqb cl (existsb (fun b => b) (closings outs)).
 
+(* ---------- family "ends": the connection ends while requests are pending ---------- *)
+(* The history stops where the connection is ended (local Disconnect, local Close, peer close,
+   cut); cl is whether the transport ended up closed. Judged as above with "transport closed":
+   nobody may return success without its own acknowledgement (chain) in the history; everybody
+   pending returns ErrClosedTransport; nobody stays blocked. *)
+Definition c07_end_ok (c : c07_case) : bool :=
+  let '(evs, obs, cl) := c in cl && callers_ok evs true 0 obs.
+
+Definition c07_end_model_ok (c : c07_case) : bool :=
+  let '(evs, obs, cl) := c in
+  let outs := run sig_init evs in
+  cl && wf evs && statuses_match outs true 0 obs && pubrels_match evs outs.
+
+(* ---------- family "long": one request stays pending while many others come and go ---------- *)
+(* compact history: LE e is an event as it is (handle 0 = the long-lived request A);
+   LBs codes: each code is a whole further request with a fresh handle, acknowledged at once:
+   k = 0 Publish QoS1, 1 Publish QoS2 (PUBREC, PUBREL, PUBCOMP), 2 Subscribe with nf filters
+   (granted 0 each), 3 Unsubscribe *)
+Inductive litem := LBs (codes : list N) | LE (e : event).
+(* a further request as one number: k * 524288 + id * 8 + nf *)
+
+Definition lb_events (h : nat) (c : N) : list event :=
+  let k := c / 524288 in
+  let id := (c / 8) mod 65536 in
+  let nf := N.to_nat (c mod 8) in
+  match k with
+  | 0 => [Start h RPub1 id; Recv (mkAck KPubAck id [])]
+  | 1 => [Start h RPub2 id; Recv (mkAck KPubRec id []); Resume h; Recv (mkAck KPubComp id [])]
+  | 2 => [Start h (RSub (repeat ([], 0) nf)) id; Recv (mkAck KSubAck id (repeat 0 nf))]
+  | _ => [Start h RUnsub id; Recv (mkAck KUnsubAck id [])]
+  end.
+
+(* handles of the further requests cycle through 1..16: each of them has returned before the next
+   one starts, so a handle is never in use twice at the same time (unary naturals up to 65,534
+   would make the evaluation quadratic); the long-lived request keeps handle 0 *)
+Definition next_handle (h : nat) : nat := if Nat.eqb h 16 then 1%nat else S h.
+
+Fixpoint lbs_events (h : nat) (cs : list N) (k : nat -> list event) : list event :=
+  match cs with
+  | [] => k h
+  | c :: r => lb_events h c ++ lbs_events (next_handle h) r k
+  end.
+
+Fixpoint long_events (h : nat) (items : list litem) : list event :=
+  match items with
+  | [] => []
+  | LE e :: r => e :: long_events h r
+  | LBs cs :: r => lbs_events h cs (fun h' => long_events h' r)
+  end.
+
+Fixpoint count_lb (items : list litem) : nat :=
+  match items with [] => O | LBs cs :: r => length cs + count_lb r | LE _ :: r => count_lb r end.
+
+(* identifiers in use are distinct per kind (the identifier half of [wf]; a handle is never in
+   use twice at the same time by construction of [long_events]) *)
+Fixpoint ids_fresh (s : sig) (evs : list event) : bool :=
+  match evs with
+  | [] => true
+  | e :: r =>
+      (match e with Start _ rk id => fresh s rk id | _ => true end) && ids_fresh (fst (step s e)) r
+  end.
+
+Fixpoint count_succ (outs : list (list out)) : nat :=
+  match outs with
+  | [] => O
+  | o :: r => length (filter (fun x => match x with Done _ (RSuccess _) => true | _ => false end) o) + count_succ r
+  end.
+
+(* (items, outcome of A, every further request returned success when acknowledged) *)
+(* the stamp is an N here (histories of more than 100,000 events) *)
+Definition c07_long_case := (list litem * (ostatus * N) * bool)%type.
+
+Definition c07_long_ok (c : c07_long_case) : bool :=
+  let '(items, oa, bok) := c in
+  bok && caller_ok (long_events 1 items) false 0 (fst oa, N.to_nat (snd oa)).
+
+Definition c07_long_model_ok (c : c07_long_case) : bool :=
+  let '(items, oa, bok) := c in
+  let evs := long_events 1 items in
+  let outs := run sig_init evs in
+  ids_fresh sig_init evs && status_matches (model_result 0 outs) false (fst oa)
+  && pubrels_match evs outs
+  && Nat.eqb (count_succ outs) (count_lb items + match fst oa with OSucc _ => 1 | _ => 0 end)
+  && negb (existsb (fun b => b) (closings outs)).
+
 Definition c07_violations (cs : list c07_case) : list nat := indices_where (fun c => negb (c07_prop_ok c)) cs.
 Definition c07_mismatches (cs : list c07_case) : list nat := indices_where (fun c => negb (c07_model_ok c)) cs.
 Definition c07_shared_mismatches (cs : list c07_case) : list nat := indices_where (fun c => negb (c07_shared_ok c)) cs.
+Definition c07_end_violations (cs : list c07_case) : list nat := indices_where (fun c => negb (c07_end_ok c)) cs.
+Definition c07_end_mismatches (cs : list c07_case) : list nat := indices_where (fun c => negb (c07_end_model_ok c)) cs.
+Definition c07_long_violations (cs : list c07_long_case) : list nat := indices_where (fun c => negb (c07_long_ok c)) cs.
+Definition c07_long_mismatches (cs : list c07_long_case) : list nat := indices_where (fun c => negb (c07_long_model_ok c)) cs.
